@@ -3513,6 +3513,23 @@ func (d *Document) serializeStyles() error {
 	return nil
 }
 
+// keptStylesPartDefines 判断原文保留的 styles.xml（打开的文档、模板渲染结果）是否已经定义了给定的样式ID。
+// 这样的样式不在样式管理器里（管理器只有预定义样式），但它的定义属于文档自己，不能用占位定义去替换。
+func (d *Document) keptStylesPartDefines(styleID string) bool {
+	if d.stylesGenerated {
+		return false
+	}
+	existing, ok := d.parts["word/styles.xml"]
+	if !ok {
+		return false
+	}
+	var escaped bytes.Buffer
+	if err := xml.EscapeText(&escaped, []byte(styleID)); err != nil {
+		return false
+	}
+	return bytes.Contains(existing, append(append([]byte(`styleId="`), escaped.Bytes()...), '"'))
+}
+
 // defineReferencedTableStyles 为表格引用、但样式管理器里还没有的表格样式ID登记一个定义。
 // Table.CreateCustomTableStyle 只能把样式ID写到表格上（表格不认识文档的样式管理器），
 // 样式本身在这里补上：一个基于普通表格的自定义表格样式，边框和底纹仍然由表格自身的属性给出。
@@ -3526,7 +3543,7 @@ func (d *Document) defineReferencedTableStyles() {
 			return
 		}
 		if table.Properties != nil && table.Properties.TableStyle != nil {
-			if styleID := table.Properties.TableStyle.Val; styleID != "" && !d.styleManager.StyleExists(styleID) {
+			if styleID := table.Properties.TableStyle.Val; styleID != "" && !d.styleManager.StyleExists(styleID) && !d.keptStylesPartDefines(styleID) {
 				base := ""
 				if d.styleManager.StyleExists("TableNormal") {
 					base = "TableNormal"
@@ -3726,6 +3743,7 @@ func (d *Document) replaceChangedStyles(existing []byte, changed map[string]bool
 			continue
 		}
 		data = bytes.Replace(data, []byte("<w:style "), []byte(`<w:style xmlns:w="http://schemas.openxmlformats.org/wordprocessingml/2006/main" `), 1)
+		data = bytes.TrimLeft(data, " ") // 原文里元素前面的缩进还在，否则每次保存都多两个空格
 		replaced := make([]byte, 0, len(result)+len(data))
 		replaced = append(replaced, result[:spans[i].start]...)
 		replaced = append(replaced, data...)
